@@ -208,6 +208,10 @@ func c20Apply(t *hashslot.HashSlotTable, o c20Op) {
 
 type c20Mon struct {
 	r *verifkit.Run
+	// skipCleanNoops: do not re-run the mapping/round-trip checks after a call
+	// that changed neither the observable state nor the version (BFS only; the
+	// identical state was checked when it was first reached).
+	skipCleanNoops bool
 }
 
 // versionStep checks the version clause across one call that turned state
@@ -374,6 +378,10 @@ func (m *c20Mon) step(t *hashslot.HashSlotTable, h int, before c20Snap, o c20Op,
 	m.r.Eval(1)
 	after = c20Snapshot(t, h)
 	changed = m.versionStep(name, before, after, ctx)
+	if !changed && after.Version == before.Version && m.skipCleanNoops {
+		// observably identical to `before`, which was fully checked already
+		return after, false
+	}
 	var touched []multiraft.SlotID
 	if int(o.HS) < h {
 		touched = []multiraft.SlotID{before.Assign[o.HS], after.Assign[o.HS], o.A, o.B}
@@ -786,6 +794,8 @@ func c20PlanIDs(s c20Snap, rng *rand.Rand, capN int) (add, remove []multiraft.Sl
 func (m *c20Mon) bfs(h, s, cap int, caseIdx int) {
 	r := m.r
 	r.BeginCase(caseIdx, fmt.Sprintf("bfs h=%d s=%d cap=%d", h, s, cap))
+	m.skipCleanNoops = true
+	defer func() { m.skipCleanNoops = false }()
 	init := hashslot.NewHashSlotTable(uint16(h), s)
 	is := c20Snapshot(init, h)
 	noHist := func() any { return "initial NewHashSlotTable" }
@@ -1132,7 +1142,7 @@ func TestVerifC20(t *testing.T) {
 	}
 
 	// A
-	bfsCap := r.N(300, 12000)
+	bfsCap := r.N(300, 4000)
 	type sz struct{ h, s int }
 	var sizes []sz
 	for h := 1; h <= r.N(5, 7); h++ {
@@ -1151,7 +1161,7 @@ func TestVerifC20(t *testing.T) {
 	endPhase("A_bfs")
 
 	// B
-	vecCap := r.N(30_000, 1_200_000)
+	vecCap := r.N(30_000, 400_000)
 	for s := 1; s <= 5; s++ {
 		for h := 1; h <= 16; h++ {
 			n := 1
@@ -1171,7 +1181,7 @@ func TestVerifC20(t *testing.T) {
 	endPhase("B_vectors")
 
 	// C
-	nWalks := r.N(2000, 120_000)
+	nWalks := r.N(2000, 30_000)
 	for i := 0; i < nWalks; i++ {
 		if !r.Skip(idx) {
 			m.randomWalk(idx, r.Rand(20, uint64(i)))
